@@ -178,7 +178,8 @@ pub fn check_spend(rng: &mut Rng, acc: &mut Acc) -> Vec<String> {
     ];
     let (recv, class) = rng.pick(&receivers).clone();
     let ibc = rng.chance(1, 2);
-    let channel = if ibc { Some(rng.pick(&["channel-1", "channel-9"]).to_string()) } else { None };
+    // (an empty channel id is still "a channel was named": never a local spend)
+    let channel = if ibc { Some(rng.pick(&["channel-1", "channel-9", "channel-1", "channel-9", ""]).to_string()) } else { None };
     let caller_is_admin = rng.chance(2, 3);
     let caller = if caller_is_admin { admin.clone() } else { rng.pick(&[trader.clone(), addr20("osmo", "nobody"), t.clone()]).clone() };
     let msg = json!({"spend_funds": {"amount": {"denom": d, "amount": amount.to_string()}, "receiver": recv, "channel_id": channel}});
@@ -298,6 +299,10 @@ pub fn run(a: &Args, acc: &mut Acc) {
                     denom(&mut rng)
                 } else if endpoint_ok {
                     if exact_in { cand[0].1.clone() } else { cand[cand.len() - 1].2.clone() }
+                } else if rng.chance(1, 4) {
+                    // the right end-point in another letter case (bank denoms are case sensitive)
+                    let e = if exact_in { cand[0].1.clone() } else { cand[cand.len() - 1].2.clone() };
+                    if e.chars().any(|c| c.is_ascii_lowercase()) { e.to_uppercase() } else { e.to_lowercase() }
                 } else if rng.chance(1, 3) {
                     // the *other* end of the route
                     if exact_in { cand[cand.len() - 1].2.clone() } else { cand[0].1.clone() }
